@@ -12,6 +12,13 @@ def _p(corpora, level='model_checking', rule='', assumptions=None):
 
 
 PROPS = {
+    'C10': _p(lambda t: ['frag'],
+              rule='a case is a write/flush/query/init sequence on a fragmented muxer enumerated by TLC from MCFrag or drawn by the seeded generator; non-trivial when >= 2 segments are emitted',
+              assumptions=['bounded: sequences up to the stated length over the stated dts-step / composition-offset alphabets, plus seeded random runs of up to 100 samples', 'the independent reader resolves trun/tfdt/mfhd faithfully']),
+    'C11': _p(lambda t: ['frag'],
+              rule='as C10; non-trivial when >= 2 segments are emitted',
+              assumptions=['bounded: sequences up to the stated length over the stated dts-step / composition-offset alphabets, plus seeded random runs of up to 100 samples', 'the constant-cadence clause is judged only when every segment holds >= 2 samples']),
+
     'C04': _p(lambda t: ['contract', 'reject', 'finish'],
               rule='a case is a (state-building prefix, probe call) history enumerated by TLC from MCMuxide (scenarios contract/reject/finish); non-trivial when some call is rejected or >= 2 calls are accepted'),
     'C05': _p(lambda t: ['reject'],
@@ -30,3 +37,6 @@ PROPS = {
     'C15': _p(lambda t: ['av'],
               rule='distinct (configuration, call sequence) pairs with >= 1 accepted sample in each track'),
 }
+
+
+NOT_CLAIMED = {}
